@@ -102,6 +102,21 @@ Theorem C11_B5_for_step_order_fixed : refs_deviates MRename w_B5_for_step_order 
 Proof. vm_compute. reflexivity. Qed.
 Print Assumptions C11_B5_for_step_order_fixed.
 
+(* a.lua: local c = 5\nlocal d = 1, 2, c\nuse(d)\n *)
+Definition w_local_surplus : list (list N * list N) :=
+  [([97; 46; 108; 117; 97], [108; 111; 99; 97; 108; 32; 99; 32; 61; 32; 53; 10; 108; 111; 99; 97; 108; 32; 100; 32; 61; 32; 49; 44; 32; 50; 44; 32; 99; 10; 117; 115; 101; 40; 100; 41; 10])].
+(* unvisited_local_surplus, FIXED (fixes/C20-local-surplus.diff): cgLocalVarDeclStat left its expression loop (`break`)
+   after the FIRST initialiser beyond the names of `local a = 1, 2, <here>, <and here>`: the later ones were never
+   analysed by any pass - their closures got no scope, the names read there no reference.  `before_surplus` = the code
+   of /repo before that repair; the witness deviates there and no longer for the code now in /repo. *)
+(* rename of c from its declaration (line 0, column 6) left the read in the third value untouched *)
+Theorem C11_local_surplus_refuted_before_fix : refs_deviates_fx before_surplus w_local_surplus MRename [97; 46; 108; 117; 97] 0 6 = true.
+Proof. vm_compute. reflexivity. Qed.
+Print Assumptions C11_local_surplus_refuted_before_fix.
+Theorem C11_local_surplus_fixed : all_in_fragment w_local_surplus = true /\ refs_deviates MRename w_local_surplus [97; 46; 108; 117; 97] 0 6 = false.
+Proof. vm_compute. split; reflexivity. Qed.
+Print Assumptions C11_local_surplus_fixed.
+
 (* a.lua: local x = 1\nreturn x *)
 Definition w_doc_end : list (list N * list N) :=
   [([97; 46; 108; 117; 97], [108; 111; 99; 97; 108; 32; 120; 32; 61; 32; 49; 10; 114; 101; 116; 117; 114; 110; 32; 120])].
